@@ -153,7 +153,7 @@ PROPERTIES = {
                  for v in ("san", "san-cm0", "san-cm2")],
     },
     "C07": {
-        "rule": "rapidcheck, two subs per contact model. 'tissue': tissues as in C06 (level 1), zero initial forces; half of the cases then remove a generated subset of the cells the way the solver does (down to one survivor in 2/3 of them) and run the SAME model instance again, all whole-tissue clauses re-checked; 'pair': one probe node "
+        "rule": "rapidcheck, two subs per contact model. 'tissue': tissues as in C06 (level 1), zero initial forces; 1/3 of the tissues are distorted by an affine map (stretch up to 3, squeeze to 0.35, shear up to 1.2: obtuse and needle-shaped triangles); contacts are computed by 1, 2, 3 or 8 threads; half of the cases then remove a generated subset of the cells the way the solver does (down to one survivor in 2/3 of them) and run the SAME model instance again, all whole-tissue clauses re-checked; 'pair': one probe node "
                 "(apex of a thin tetrahedron) at signed depth in (-cutoff, cutoff) over the centroid region of one face of a tetrahedron "
                 "60 cut-offs wide, for all 25 ordered class pairs, both sides, both node-normal states, repulsion strength over 5 decades, "
                 "random rigid placement and scale. Non-trivial = a case in which a contact force or coupling was created; distinct = hash of the case.",
